@@ -7,7 +7,7 @@ from ..gen import guardtable as GT
 
 PID = "C01"
 TITLE = "Surface connectivity answers agree with the face list"
-LEAN_MODULES = ["Mouette.Props.C01"]
+LEAN_MODULES = ["Mouette.Props.C01", "Mouette.Props.C01Ring"]
 REQUIRED_THEOREMS = [
     # histories (generic machine + instance on the translated guard table)
     "lazy_history_independent", "lazy_order_independent", "fresh_never_worse", "generated_table_wellguarded", "surface_history_independent",
@@ -16,6 +16,11 @@ REQUIRED_THEOREMS = [
     "next_eq_spec", "prev_eq_spec", "opposite_eq_spec", "edgeToFaces_eq_spec",
     "cornerToFace_eq_spec", "faceToCorners_contiguous", "border_partition", "vertex_border_iff",
     "edgeId_eq_spec", "edges_eq_spec", "faceToFaces_eq_spec", "vf2cn_eq", "opposite_eq_halfEdge", "halfEdge_corner_face",
+    # rotational order (round 2)
+    "ring_sorted", "ring_sorted_border", "ring_sorted_interior", "ring_unsorted", "vertexToCorners_perm",
+    "vertexToFaces_eq_map", "vertexToEdges_eq_map", "umbrella_check_sound", "cornersAt_eq_spec", "stepB_eq_spec",
+    "stepF_stepB_inverse", "ring_sorted_vertices_border", "ring_sorted_vertices_interior", "spoke_eq_spec",
+    "vertexToVertices_mem_spec", "oppositeFace_eq_spec", "commonEdge_eq_spec",
 ]
 TRUSTED = [
     "Lean 4.33.0 kernel; axioms ⊆ {propext, Classical.choice, Quot.sound}",
@@ -324,7 +329,7 @@ def model_request(case):
 def compare(case, model, impl):
     wf, _, model = model.partition(" ## ")
     if wf != "wf:1" and G.surface_stats(case["nv"], case["F"])["manifold"]:
-        return f"the hypothesis of the theorems (Oriented, faces without repeated vertex) does not hold on a manifold input: {wf}"
+        return f"the hypothesis of the theorems (Oriented, faces without repeated vertex, umbrella condition at every vertex) does not hold on a manifold input: {wf}"
     if model == impl: return None
     mh, ih = model.split(" || "), impl.split(" || ")
     if len(mh) != len(ih): return f"history count differs (model reply: {model[:80]})"
@@ -716,13 +721,18 @@ MANIFEST = {
                    "dictionary with last-write-wins lookups, corner numbering, opposite pass, edge completion, border lists): under the "
                    "decidable hypothesis that every directed side occurs once, direct_face/half_edge_to_corner/corner_to_half_edge/"
                    "next/previous/opposite corner/edge_to_faces/corner_to_face/face_to_corners/edge ids equal their quantifier-style "
-                   "definitions on the face list, and border ∪ interior partitions edges and vertices; for histories a generic theorem "
+                   "definitions on the face list, and border ∪ interior partitions edges and vertices; ring_sorted: under the umbrella "
+                   "condition at a vertex (decidable, evaluated by the driver on every input) vertex_to_corners is the rotational ring "
+                   "(consecutive corners related by opposite∘previous; starts at the border corner for a border vertex; cyclic for an "
+                   "interior vertex) whatever corner the walk starts from, and vertex_to_vertices/faces/edges are its images in the "
+                   "matching order with the half-edge-less border neighbour first; set-level specs of vertex_to_vertices, "
+                   "opposite_face, common_edge; for histories a generic theorem "
                    "about lazily filled caches (any guard table that passes a decidable closure check answers every query, after every "
                    "finite history, with the pure answer and never raises) is instantiated by `decide` on the guard table re-extracted "
                    "from surface.py/linear.py with Python ast on every run. The model is tied to the code by running every accessor on "
                    "every element of generated manifold surfaces in three query orders, plus a direct face-list oracle."),
     "level_note": ("Trusted: Lean kernel + propext/Classical.choice/Quot.sound; the ast translator of the guard table; the abstraction "
                    "'filled cache = pure function of the face list'; hand-written Surface model (sampled agreement only); set iteration "
-                   "order forgotten. Rotational-order theorems (ring_sorted) are correspondence/oracle-only."),
+                   "order forgotten (the ring theorems hold for every starting corner)."),
     "technique": "Lean 4 refinement proof (model = face-list spec) + generic lazy-cache state machine instantiated on an ast-translated guard table; differential history correspondence",
 }
